@@ -182,6 +182,16 @@ func (w *serverWorld) runHTTP(x *X, hdl http.Handler, idx int, h HTTPReqSc) {
 	// ---- oracle
 	plain := method == "POST" && (h.CType == "") && h.Mangle != "no-length"
 	switch {
+	case len(body) > 1<<20 || declared > 1<<20:
+		// beyond the handler's documented body limit: it may refuse (what matters is that it survives; the
+		// connection-level properties are judged on the TCP surface)
+		s.Probe("http-body-over-limit")
+		if rec.Code == 200 {
+			var resp kmip.ResponseMessage
+			if err := unmarshalEnc(h.Enc, rec.Body.Bytes(), &resp); err != nil {
+				x.Reportf("C08.http-response-undecodable", ct, "response (200) to an oversized %s request does not decode: %v", ct, err)
+			}
+		}
 	case method != "POST":
 		if rec.Code < 400 {
 			x.Reportf("C08.http-bad-status", "method", "%s request answered with status %d", method, rec.Code)
